@@ -205,13 +205,14 @@ type Scenario struct {
 	IrrFlag    bool
 	OtherField bool // add events of a second field to the files
 
-	MeasCSV  bool
-	MeasInit bool // write one measurement record (initial values) for the field
-	MeasDate Date
-	MeasN    [6]int
-	MeasW    [6]float64
-	MeasMode string // "1" fraction of available water, "3" absolute
-	InitSel  int
+	MeasCSV   bool
+	MeasInit  bool // write one measurement record (initial values) for the field
+	MeasDate  Date
+	MeasN     [6]int
+	MeasW     [6]float64
+	MeasShort bool   `json:",omitempty"` // measurement table without the columns of the deeper layers
+	MeasMode  string // "1" fraction of available water, "3" absolute
+	InitSel   int
 
 	ETpot                int
 	CO2Method            int
@@ -738,6 +739,7 @@ func genWithProfile(prop string, seed uint64, idx int, r *Rng, p Profile) *Scena
 			sc.MeasW[i] = float64(r.Range(5, 100)) / 100
 		}
 		sc.MeasMode = "1"
+		sc.MeasShort = NewRng(mix(mix(seed, uint64(idx)), 3232)).Bool(0.33)
 		// a fifth of the measurement files give the water contents as absolute volumetric ("3") or gravimetric ("2") values
 		// instead of fractions of the available water (only for soils without stones and without explicit / transfer-function
 		// parameters, whose pore volume can be small: a measured content must fit into the pores)
